@@ -11,6 +11,12 @@ Model: `Vflow.Producer.run wo dl retryMax ms` (`Model/Producer.lean`), the loop 
 Every theorem quantifies over **every** message list (any octets), **every** script (functions
 `Nat → WOut`, `Nat → DOut`, so also infinite ones) and **every** `retryMax : Nat`.
 
+What the outcome script abstracts (trusted, not proved): a write whose outcome is `ok` puts the whole
+framed message on the wire; a write that returns an error has put no *complete* line on the wire (Go's
+`Write` reports an error for a partial write, and the sink counts only complete lines); `lost` covers
+a write the kernel accepted for a connection/port that is already dead. Kernel timing decides *which*
+script occurs; the theorems hold for all of them.
+
 The tie to the source is (A) the obligations on `Vflow.Gen.ProducerFacts` at the end of this file
 (regenerated from `producer/*.go` on every run) and (B) the `producer` correspondence
 (`producer/verif_rawsocket_test.go` against real sockets).
